@@ -44,6 +44,12 @@ theorem grow_setAttribute (d : Dom) (x : Id) (n v : String) : Grow d (d.setAttri
   · exact grow_modify d x _ (fun _ => rfl)
   · exact grow_err d _
 
+theorem grow_removeAttribute (d : Dom) (x : Id) (n : String) : Grow d (d.removeAttribute x n) := by
+  unfold Dom.removeAttribute
+  split
+  · exact grow_modify d x _ (fun r => by cases getA r.attrs n <;> rfl)
+  · exact Grow.refl d
+
 theorem grow_detach (d : Dom) (c : Id) : Grow d (d.detach c) := by
   unfold Dom.detach
   split
